@@ -1868,10 +1868,22 @@ class Rule(metaclass=LogicalType):
                 result = validate(key, constraint, validator, value)
                 if result is not value:
                     # the constraint transformed the value (a lax constraint, or decimal_places completing
-                    # a Decimal): the strict constraints that were checked before it must hold for the output as well
-                    for item in passed:
-                        validate(*item, result)
-                if getattr(validator, "__name__", key) == key and len(context.errors) == errors:
+                    # a Decimal): the constraints that were applied before it must hold for the output as well:
+                    # a strict one must accept it, a lax one must leave it as it is (the result is a fixed point)
+                    for _key, _constraint, _validator in passed:
+                        again = validate(_key, _constraint, _validator, result)
+                        if again is not result and len(context.errors) == errors:
+                            try:
+                                same = type(again) is type(result) and bool(again == result)
+                            except Exception:  # noqa
+                                same = False
+                            if not same:
+                                context.handle_error(exc.ConstraintError(
+                                    f"value {repr(result)} does not satisfy the lax constraint any more "
+                                    f"after {repr(key)} was applied",
+                                    constraint=_key, constraint_value=_constraint
+                                ))
+                if len(context.errors) == errors:
                     passed.append((key, constraint, validator))
                 value = result
 
